@@ -5,7 +5,7 @@ import scen_common
 PID = "C08"
 PROP_V = ["Props/Properties_C08.v", "Props/Properties_C08b.v"]
 GEN_MODULES = ["Consts", "Sites"]
-FLOW_FILES = ['note.c']
+FLOW_FILES = ['note.c', 'sem_wait.c']
 REPLAY_HINT = "VRT_SEED=<seed> VRT_FAMILY=<f> _work/h/note_mix"
 PARTIAL = ["C08_descendants is PROVED in its creation-time form (Properties_C08b.C08_descendants_full_holds = the Definition C08_descendants_full of "
            "Properties_C08: in every reachable quiet world -- no notification in progress -- every fully constructed, not freed note m with a notified "
